@@ -253,7 +253,8 @@ def entity_choices(fo: oracle.FormOracle, itype, mode="full"):
     if itype == "exterior_facet":
         return [((f, 0), (0, 0)) for f in range(nf)]
     out = []
-    if mode == "quick" and tdim == 3:
+    if (mode == "quick" and tdim == 3) or (mode == "full" and cell == "hexahedron"):
+        # (the full product on hexahedra is 36 facet pairs x 64 code pairs per geometry instance: the covering family is used in every tier)
         # every ordered facet pair under two code pairs; the full code product on two facet pairs
         full_on = {(0, nf - 1)}
         for f0, f1 in itertools.product(range(nf), repeat=2):
